@@ -414,6 +414,15 @@ class SimSocket:
         return None
 
     def send(self, data, flags=0):
+        """send() may take only part of the data and says so by its return value (the caller has to go on with
+        the rest); the scheduler decides how much"""
+        data = bytes(data)
+        if self.side == "mgr" and len(data) > 1 and self.kind == "conn" and not self.closed \
+                and self.net.choices.flag("net.send_short", 1, 3):
+            k = 1 + self.net.choices.pick("net.send_k", len(data) - 1)
+            self.sendall(data[:k])
+            self.net.stats["short_send"] = self.net.stats.get("short_send", 0) + 1
+            return k
         self.sendall(data)
         return len(data)
 
